@@ -930,6 +930,17 @@ func selectHasCtxArm(s *ssa.Select) bool {
 // chanFieldIdent names a channel that lives in a struct field ("accountant.AccountingBook.truncateSignal").
 func chanFieldIdent(v ssa.Value) string {
 	v = strip(v)
+	// an accessor that hands the field out (subscribe() returns b.pub)
+	if c, ok := v.(*ssa.Call); ok {
+		if cal := c.Call.StaticCallee(); cal != nil && isRepoFunc(cal) && len(cal.Blocks) > 0 {
+			if rets := returnsOf(cal); len(rets) == 1 && len(rets[0].Results) == 1 {
+				if _, again := strip(rets[0].Results[0]).(*ssa.Call); !again {
+					return chanFieldIdent(rets[0].Results[0])
+				}
+			}
+		}
+		return ""
+	}
 	if u, ok := v.(*ssa.UnOp); ok && u.Op == token.MUL {
 		if fa, ok := u.X.(*ssa.FieldAddr); ok {
 			return lockIdent(fa)
